@@ -55,6 +55,49 @@ class Drift(Exception):
 # one function per view: run a history given as a list of op names; parameters from prng
 
 
+def _as_text(view):
+    return {k: (None if v is None else str(v)) for k, v in dict(view).items()}
+
+
+def _split_directives(hdr):
+    """'a=1, b="x, y", c' -> {'a': '1', 'b': 'x, y', 'c': None}; None when the text is not of that simple shape"""
+    out, i, n = {}, 0, len(hdr)
+    while i < n:
+        j = i
+        while j < n and hdr[j] not in "=,":
+            j += 1
+        key = hdr[i:j].strip()
+        if not key:
+            return None
+        if j >= n or hdr[j] == ",":
+            out[key] = None
+            i = j + 1
+            continue
+        j += 1
+        if j < n and hdr[j] == '"':
+            j += 1
+            val = ""
+            while j < n and hdr[j] != '"':
+                if hdr[j] == "\\" and j + 1 < n:
+                    j += 1
+                val += hdr[j]
+                j += 1
+            if j >= n:
+                return None
+            j += 1
+        else:
+            k2 = j
+            while k2 < n and hdr[k2] != ",":
+                k2 += 1
+            val = hdr[j:k2].strip()
+            j = k2
+        out[key] = val
+        while j < n and hdr[j] in " ,":
+            j += 1
+        i = j
+    return out
+
+
 def hist_cache_control(W, ops, prng):
     r = W["Response"]()
     cc = r.cache_control
@@ -102,6 +145,17 @@ def hist_cache_control(W, ops, prng):
             cc[k] = v
             hist.append(("item", k, v))
             model[k] = v
+        elif op == "item_number":
+            # the mapping interface stores the value as given; it becomes text when the header is written.  Values that
+            # compare (and hash) equal but read differently meet here: 1 / True / 1.0, 0 / False / 0.0
+            k = prng.choice(["max-age", "s-maxage", "x-ext", "x-other"])
+            v = prng.choice([1, True, 0, False, 10, 7] + ([1.0, 0.0, 10.0, 2.5] if k.startswith("x-") else []))
+            if prng.random() < 0.5:
+                cc[k] = v
+            else:
+                cc.update({k: v})
+            hist.append(("item", k, v))
+            model[k] = str(v)
         elif op == "delitem":
             k = prng.choice(["max-age", "x-ext", "no-cache"])
             if k in cc:
@@ -145,14 +199,20 @@ def hist_cache_control(W, ops, prng):
             hist.append("assign_none")
         hdr = r.headers.get("Cache-Control")
         fresh = r.cache_control
-        if dict(cc) != model:
+        if _as_text(cc) != model:
             raise Drift("C16/cache_control:view-differs-from-shadow-model", f"{hist!r}: view {dict(cc)!r} model {model!r}")
+        if hdr is not None and model:
+            # the header text itself, read by a parser that is not werkzeug's (directive values here have no commas inside quotes ... unless quoted)
+            want_txt = {k: v for k, v in model.items()}
+            got_txt = _split_directives(hdr)
+            if got_txt is not None and got_txt != want_txt:
+                raise Drift("C16/cache_control:header-text-differs-from-assigned-values", f"{hist!r}: header {hdr!r} assigned {want_txt!r}")
         if cc:
             if hdr != cc.to_header():
                 raise Drift("C16/cache_control:header-differs-from-view", f"{hist!r}: header {hdr!r} view {cc.to_header()!r}")
         elif hdr is not None:
             raise Drift("C16/cache_control:header-present-for-empty-view", f"{hist!r}: {hdr!r}")
-        if dict(fresh) != dict(cc):
+        if _as_text(fresh) != _as_text(cc):
             raise Drift("C16/cache_control:fresh-view-differs", f"{hist!r}: fresh {dict(fresh)!r} held {dict(cc)!r}")
         # typed read-back
         for a in CCI:
@@ -169,7 +229,7 @@ def hist_cache_control(W, ops, prng):
     return hist
 
 
-CC_OPS = ["b", "i", "s", "del", "item", "delitem", "pop", "popitem", "clear", "update", "setdefault", "direct", "reget", "assign_none"]
+CC_OPS = ["b", "i", "s", "del", "item", "item_number", "item_number", "delitem", "pop", "popitem", "clear", "update", "setdefault", "direct", "reget", "assign_none"]
 
 
 def hist_header_set(W, ops, prng):
@@ -277,6 +337,47 @@ def hist_www(W, ops, prng):
             r.www_authenticate = WWWAuthenticate("bearer", token="tok")
             w = r.www_authenticate
             model = ("bearer", "tok", {})
+        elif op == "assign_prepared":
+            # a challenge object with a past: it was built, logged / formatted (which serialises it), then completed, and only
+            # then handed to the response - alone or, first, as an item of a list (list items are not live)
+            obj = WWWAuthenticate("digest", {"realm": "draft", "nonce": "n0"})
+            past = prng.choice(["str", "repr", "to_header", "list-item", "other-response", "none"])
+            if past == "str":
+                str(obj)
+            elif past == "repr":
+                repr(obj)
+            elif past == "to_header":
+                obj.to_header()
+            elif past == "list-item":
+                r.www_authenticate = [obj, WWWAuthenticate("basic", {"realm": "b"})]
+            elif past == "other-response":
+                r_other = W["Response"]()
+                r_other.www_authenticate = [obj]
+            obj["realm"] = "final"
+            obj.parameters["nonce"] = "n1"
+            if prng.random() < 0.5:
+                obj.type = "custom"
+            r.www_authenticate = obj
+            w = r.www_authenticate
+            model = (obj.type, None, {"realm": "final", "nonce": "n1"})
+            hdr_now = r.headers.get("WWW-Authenticate")
+            indep = WWWAuthenticate(model[0], dict(model[2])).to_header()
+            if hdr_now != indep:
+                raise Drift("C16/www_authenticate:header-differs-from-assigned-challenge", f"{hist!r}: a challenge that was serialised before ({past}) and completed afterwards was assigned; header {hdr_now!r}, the challenge reads {indep!r}")
+        elif op == "assign_list_again":
+            a_ = WWWAuthenticate("digest", {"realm": "one", "nonce": "n"})
+            b_ = WWWAuthenticate("bearer", token="tok")
+            r.www_authenticate = [a_, b_]
+            a_["realm"] = "two"  # not live (documented): assign the list again
+            b_.token = "tok2"
+            r.www_authenticate = [a_, b_]
+            got_l = r.headers.getlist("WWW-Authenticate")
+            want_l = [WWWAuthenticate("digest", {"realm": "two", "nonce": "n"}).to_header(), WWWAuthenticate("bearer", token="tok2").to_header()]
+            if got_l != want_l:
+                raise Drift("C16/www_authenticate:header-differs-from-assigned-challenge", f"{hist!r}: list assigned, items edited, list assigned again: headers {got_l!r}, the challenges read {want_l!r}")
+            r.www_authenticate = a_
+            w = r.www_authenticate
+            model = ("digest", None, {"realm": "two", "nonce": "n"})
         elif op == "delete":
             del r.www_authenticate
             w = None
@@ -366,7 +467,7 @@ def hist_www(W, ops, prng):
 
 
 WWW_OPS = ["assign", "assign_token", "set_param_item", "set_param_attr", "del_param", "del_attr", "set_type", "set_type_case", "set_token", "set_params", "none_item", "delete", "direct", "reget",
-           "params_dict_set", "params_pop", "set_params_from_other_view"]
+           "params_dict_set", "params_pop", "set_params_from_other_view", "assign_prepared", "assign_list_again"]
 
 
 def hist_csp(W, ops, prng):
@@ -546,6 +647,11 @@ def hist_mimetype_params(W, ops, prng):
             tv = prng.choice(["urn:ietf:x", "host:8080", "a/b", "u@h", "a=b", "x;y", "1,2", "[v]", "a?b", "{}", "sp ace"])
             mp["start-info"] = tv
             m["start-info"] = tv
+        elif op == "set_number":
+            k = prng.choice(["version", "level", "q"])
+            v = prng.choice([1, True, 1.0, 0, False, 0.0, 2, 2.5])
+            mp[k] = v
+            m[k] = v
         elif op == "del":
             wrote = "charset" in m
             if wrote:
@@ -583,7 +689,7 @@ def hist_mimetype_params(W, ops, prng):
             m, mt, wrote = {"a": "b"}, "text/x", False
             hdr = {"a": "b"}
         if wrote:
-            hdr = dict(m)
+            hdr = {k: v if isinstance(v, str) else str(v) for k, v in m.items()}  # the header carries text
         fresh = r.mimetype_params
         if dict(mp) != m:
             raise Drift("C16/mimetype_params:view-differs-from-shadow-model", f"{hist!r}: {dict(mp)!r} vs {m!r}")
@@ -594,7 +700,7 @@ def hist_mimetype_params(W, ops, prng):
     return hist
 
 
-MP_OPS = ["set", "set_weird", "set_tokenish", "set_tokenish", "del", "pop", "update", "clear", "mimetype", "direct", "mimetype_keep_view", "content_type_keep_view"]
+MP_OPS = ["set", "set_weird", "set_tokenish", "set_tokenish", "set_number", "set_number", "del", "pop", "update", "clear", "mimetype", "direct", "mimetype_keep_view", "content_type_keep_view"]
 
 VIEW_TABLE = {
     "cache_control": (hist_cache_control, CC_OPS),
